@@ -1,4 +1,5 @@
 import OntVerif.Proofs.Merkle
+import OntVerif.Gen.MerklePath
 /-!
 # C27 — Cross-chain merkle paths prove exactly the included values
 
@@ -106,6 +107,15 @@ theorem C27_sound_bytes [DecidableEq Hash] (H0 : Bytes → Hash) (H1 : Hash → 
       subst h
       exact proveFold_sound H0 H1 He L hne hL v _ hr
     · simp [hr] at h
+
+/-- **The code hashes the value unconditionally** (facts regenerated from `merkle/merkle_hasher.go` on every run):
+`MerkleProve` starts from `HashLeaf(value)` of the parsed value and from nothing else, `MerkleLeafPath` looks up
+`HashLeaf(data)`, and `HashLeaf` has no branch on its argument — as the model's `merkleProve` / `merkleLeafPath` apply `H0`.
+A rewrite of these calls (e.g. using a 32-byte value as the leaf directly) makes this theorem fail. -/
+theorem C27_code_hashes_value_unconditionally :
+    OntVerif.Gen.MerklePath.proveStartsFromHashLeafOfValue = true ∧
+    OntVerif.Gen.MerklePath.leafPathLooksUpHashLeafOfData = true ∧
+    OntVerif.Gen.MerklePath.hashLeafIsBranchFree = true := by decide
 
 /-! ### Non-vacuity, and why the hypothesis "list elements are leaf hashes" is needed
 
